@@ -280,8 +280,6 @@ class IndexedSet(MutableSet):
 
     def issuperset(self, other):
         "issuperset(other) -> return True if set contains other"
-        if len(other) > len(self):
-            return False
         iim = self.item_index_map
         for k in other:
             if k not in iim:
